@@ -1,1 +1,568 @@
-//! verification hooks used by the check of property C17
+//! verification hooks used by the check of property C17 (standard-library modules compose in any order)
+//!
+//! Three read-only views:
+//!  * `module_summary(code)` — what a module source *is* for the resolver and for name resolution: its
+//!    statements in textual order, each either a `use` or a definition with the names it defines and the
+//!    free names it uses (taken from the AST the real parser produces);
+//!  * `Context::verif_c17_trace(code)` — what `Resolver::resolve` (i.e. `inlining_pass`) returns for an input:
+//!    for every inlined statement the module it came from and its position, plus `imported_modules`;
+//!  * `Context::verif_c17_digest()` — names, types and constant values of a session, as sorted text lines.
+
+use std::collections::BTreeSet;
+
+use crate::Context;
+use crate::ast::{DefineVariable, Expression, Statement, StringPart, TypeAnnotation, TypeExpression};
+use crate::decorator::{self, Decorator};
+use crate::prefix::Prefix;
+use crate::prefix_parser::PrefixParserResult;
+use crate::pretty_print::PrettyPrint;
+use crate::quantity::Quantity;
+use crate::resolver::{CodeSource, ResolverError};
+use crate::unit::Unit;
+use crate::value::Value;
+
+// ------------------------------------------------------------------------------------------------
+// module summaries
+
+/// One top-level statement of a module source.
+#[derive(Debug, Clone, PartialEq)]
+pub enum ItemSummary {
+    /// `use a::b` — target path and byte offset of the statement
+    Use { target: String, start: usize },
+    /// any other statement
+    Def {
+        /// let | fn | ffi-fn | unit | base-unit | dimension | struct | expr | proc
+        kind: &'static str,
+        start: usize,
+        /// names introduced into the value namespace (variables, functions, units incl. aliases)
+        names: Vec<String>,
+        /// names introduced into the type namespace (dimensions, structs)
+        type_names: Vec<String>,
+        /// free identifiers of the value namespace, as written (prefixes not yet split off), sorted
+        uses: Vec<String>,
+        /// free identifiers of the type namespace (dimension / struct names), sorted
+        type_uses: Vec<String>,
+        /// type parameters bound by the statement (must not clash with an existing type name)
+        type_params: Vec<String>,
+    },
+}
+
+struct Walk {
+    bound: Vec<String>,
+    tbound: Vec<String>,
+    uses: BTreeSet<String>,
+    tuses: BTreeSet<String>,
+}
+
+impl Walk {
+    fn new() -> Self {
+        Walk {
+            bound: vec![],
+            tbound: vec![],
+            uses: BTreeSet::new(),
+            tuses: BTreeSet::new(),
+        }
+    }
+
+    fn ident(&mut self, name: &str) {
+        if self.bound.iter().any(|b| b == name) {
+            return;
+        }
+        // the temperature pseudo-units are sugar for a call of these functions (prefix_transformer.rs)
+        let name = match name {
+            "°C" | "celsius" | "degree_celsius" => "from_celsius",
+            "°F" | "fahrenheit" | "degree_fahrenheit" => "from_fahrenheit",
+            n => n,
+        };
+        self.uses.insert(name.to_string());
+    }
+
+    fn expr(&mut self, e: &Expression) {
+        match e {
+            Expression::Scalar(..) | Expression::Boolean(..) | Expression::TypedHole(_) => {}
+            Expression::Identifier(_, name) => self.ident(name),
+            Expression::UnitIdentifier { name, .. } => self.ident(name),
+            Expression::UnaryOperator { expr, .. } => self.expr(expr),
+            Expression::BinaryOperator { lhs, rhs, .. } => {
+                self.expr(lhs);
+                self.expr(rhs);
+            }
+            Expression::FunctionCall { callable, args, .. } => {
+                self.expr(callable);
+                for a in args {
+                    self.expr(a);
+                }
+            }
+            Expression::String(_, parts) => {
+                for p in parts {
+                    if let StringPart::Interpolation { expr, .. } = p {
+                        self.expr(expr);
+                    }
+                }
+            }
+            Expression::Condition {
+                condition,
+                then_expr,
+                else_expr,
+                ..
+            } => {
+                self.expr(condition);
+                self.expr(then_expr);
+                self.expr(else_expr);
+            }
+            Expression::InstantiateStruct { name, fields, .. } => {
+                self.tident(name);
+                for (_, _, e) in fields {
+                    self.expr(e);
+                }
+            }
+            Expression::AccessField { expr, .. } => self.expr(expr),
+            Expression::List(_, elements) => {
+                for e in elements {
+                    self.expr(e);
+                }
+            }
+        }
+    }
+
+    fn tident(&mut self, name: &str) {
+        if !self.tbound.iter().any(|b| b == name) {
+            self.tuses.insert(name.to_string());
+        }
+    }
+
+    fn texpr(&mut self, t: &TypeExpression) {
+        match t {
+            TypeExpression::Unity(_) => {}
+            TypeExpression::TypeIdentifier(_, name, args) => {
+                self.tident(name);
+                for a in args {
+                    self.annotation(a);
+                }
+            }
+            TypeExpression::Multiply(_, l, r) | TypeExpression::Divide(_, l, r) => {
+                self.texpr(l);
+                self.texpr(r);
+            }
+            TypeExpression::Power(_, l, _, _) => self.texpr(l),
+        }
+    }
+
+    fn annotation(&mut self, a: &TypeAnnotation) {
+        match a {
+            TypeAnnotation::TypeExpression(t) => self.texpr(t),
+            TypeAnnotation::Bool(_) | TypeAnnotation::String(_) | TypeAnnotation::DateTime(_) => {}
+            TypeAnnotation::Fn(_, params, ret) => {
+                for p in params {
+                    self.annotation(p);
+                }
+                self.annotation(ret);
+            }
+            TypeAnnotation::List(_, elem) => self.annotation(elem),
+        }
+    }
+}
+
+fn names_and_aliases(name: &str, decorators: &[Decorator]) -> Vec<String> {
+    decorator::name_and_aliases(name, decorators)
+        .map(|(n, _)| n.to_string())
+        .collect()
+}
+
+fn summarize(stmt: &Statement) -> ItemSummary {
+    let start = stmt.full_span().start.0 as usize;
+    let mut w = Walk::new();
+    let mut names: Vec<String> = vec![];
+    let mut type_names: Vec<String> = vec![];
+    let mut type_params: Vec<String> = vec![];
+    let kind: &'static str = match stmt {
+        Statement::ModuleImport(_, path) => {
+            return ItemSummary::Use {
+                target: path.0.join("::"),
+                start,
+            };
+        }
+        Statement::Expression(e) => {
+            w.expr(e);
+            "expr"
+        }
+        Statement::ProcedureCall(_, _, args) => {
+            for a in args {
+                w.expr(a);
+            }
+            "proc"
+        }
+        Statement::DefineVariable(DefineVariable {
+            identifier,
+            expr,
+            type_annotation,
+            decorators,
+            ..
+        }) => {
+            names = names_and_aliases(identifier, decorators);
+            w.expr(expr);
+            if let Some(a) = type_annotation {
+                w.annotation(a);
+            }
+            "let"
+        }
+        Statement::DefineFunction {
+            function_name,
+            type_parameters,
+            parameters,
+            body,
+            local_variables,
+            return_type_annotation,
+            ..
+        } => {
+            names.push(function_name.to_string());
+            for (_, tp, _) in type_parameters {
+                type_params.push(tp.to_string());
+                w.tbound.push(tp.to_string());
+            }
+            // parameters and all `where` locals are in scope in the body and in every local definition
+            for (_, p, annotation) in parameters {
+                w.bound.push(p.to_string());
+                if let Some(a) = annotation {
+                    w.annotation(a);
+                }
+            }
+            for l in local_variables {
+                w.bound.push(l.identifier.to_string());
+            }
+            if let Some(b) = body {
+                w.expr(b);
+            }
+            for l in local_variables {
+                w.expr(&l.expr);
+                if let Some(a) = &l.type_annotation {
+                    w.annotation(a);
+                }
+            }
+            if let Some(a) = return_type_annotation {
+                w.annotation(a);
+            }
+            if body.is_some() { "fn" } else { "ffi-fn" }
+        }
+        Statement::DefineDimension(_, name, exprs) => {
+            type_names.push(name.to_string());
+            for t in exprs {
+                w.texpr(t);
+            }
+            "dimension"
+        }
+        Statement::DefineBaseUnit(_, name, dexpr, decorators) => {
+            names = names_and_aliases(name, decorators);
+            if let Some(t) = dexpr {
+                w.texpr(t);
+            }
+            "base-unit"
+        }
+        Statement::DefineDerivedUnit {
+            identifier,
+            expr,
+            type_annotation,
+            decorators,
+            ..
+        } => {
+            names = names_and_aliases(identifier, decorators);
+            w.expr(expr);
+            if let Some(a) = type_annotation {
+                w.annotation(a);
+            }
+            "unit"
+        }
+        Statement::DefineStruct {
+            struct_name,
+            type_parameters,
+            fields,
+            ..
+        } => {
+            type_names.push(struct_name.to_string());
+            for (_, tp, _) in type_parameters {
+                type_params.push(tp.to_string());
+                w.tbound.push(tp.to_string());
+            }
+            for (_, _, a) in fields {
+                w.annotation(a);
+            }
+            "struct"
+        }
+    };
+    ItemSummary::Def {
+        kind,
+        start,
+        names,
+        type_names,
+        uses: w.uses.into_iter().collect(),
+        type_uses: w.tuses.into_iter().collect(),
+        type_params,
+    }
+}
+
+/// The statements of a module source in textual order, from the real parser's AST.
+pub fn module_summary(code: &str) -> Result<Vec<ItemSummary>, String> {
+    match crate::parser::parse(code, 0) {
+        Ok(statements) => Ok(statements.iter().map(summarize).collect()),
+        Err((_, errors)) => Err(errors
+            .iter()
+            .map(|e| e.to_string())
+            .collect::<Vec<_>>()
+            .join("; ")),
+    }
+}
+
+// ------------------------------------------------------------------------------------------------
+// the resolver's view of an input
+
+/// One statement of the inlined program `Resolver::resolve` returns.
+#[derive(Debug, Clone, PartialEq)]
+pub struct TracedStatement {
+    /// module path the statement comes from (`a::b`), `None` for the input itself
+    pub origin: Option<String>,
+    /// byte offset of the statement in its source
+    pub start: usize,
+    /// first name it defines (value or type namespace), if any
+    pub name: Option<String>,
+}
+
+#[derive(Debug, Clone, PartialEq)]
+pub enum TraceError {
+    UnknownModule(String),
+    Parse,
+}
+
+impl Context {
+    /// Runs `Resolver::resolve` (parse + `inlining_pass`) on `code` — nothing else, exactly as
+    /// `interpret` does in its first step, but without restoring `imported_modules` on failure.
+    pub fn verif_c17_trace(&mut self, code: &str) -> Result<Vec<TracedStatement>, TraceError> {
+        match self.resolver.resolve(code, CodeSource::Text) {
+            Ok(statements) => Ok(statements
+                .iter()
+                .map(|s| {
+                    let span = s.full_span();
+                    let origin = match self.resolver.get_code_source(span.code_source_id) {
+                        CodeSource::Module(path, _) => Some(path.to_string()),
+                        _ => None,
+                    };
+                    let name = match summarize(s) {
+                        ItemSummary::Def {
+                            names, type_names, ..
+                        } => names.into_iter().chain(type_names).next(),
+                        ItemSummary::Use { .. } => None,
+                    };
+                    TracedStatement {
+                        origin,
+                        start: span.start.0 as usize,
+                        name,
+                    }
+                })
+                .collect()),
+            Err(ResolverError::UnknownModule(_, path)) => {
+                Err(TraceError::UnknownModule(path.to_string()))
+            }
+            Err(ResolverError::ParseErrors(_)) => Err(TraceError::Parse),
+        }
+    }
+
+    /// `Resolver::imported_modules`, in the order of recording
+    pub fn verif_c17_imported(&self) -> Vec<String> {
+        self.resolver
+            .imported_modules
+            .iter()
+            .map(|m| m.to_string())
+            .collect()
+    }
+
+    /// What the session's prefix parser makes of an identifier: the unit name (alias) it refers to, with the
+    /// prefix split off, or the identifier itself.
+    pub fn verif_c17_resolve_identifier(&self, ident: &str) -> String {
+        match self.prefix_transformer.prefix_parser.parse(ident) {
+            PrefixParserResult::UnitIdentifier(_, _, unit_name, _) => unit_name.to_string(),
+            PrefixParserResult::Identifier(i) => i.to_string(),
+        }
+    }
+}
+
+// ------------------------------------------------------------------------------------------------
+// session digest
+
+fn describe_unit(u: &Unit) -> String {
+    u.iter()
+        .map(|f| {
+            let p = match f.prefix {
+                Prefix::Metric(e) => format!("m{e}"),
+                Prefix::Binary(e) => format!("b{e}"),
+            };
+            format!(
+                "{}~{}^{}/{}",
+                f.unit_id.name,
+                p,
+                f.exponent.numer(),
+                f.exponent.denom()
+            )
+        })
+        .collect::<Vec<_>>()
+        .join("*")
+}
+
+fn describe_quantity(q: &Quantity) -> String {
+    format!(
+        "{:016x}[{}]",
+        q.unsafe_value().to_f64().to_bits(),
+        describe_unit(q.unit())
+    )
+}
+
+fn describe_value(v: &Value) -> String {
+    match v {
+        Value::Quantity(q) => describe_quantity(q),
+        Value::Boolean(b) => format!("bool:{b}"),
+        Value::String(s) => format!("str:{s:?}"),
+        Value::DateTime(dt) => format!("datetime:{}", dt.timestamp().as_nanosecond()),
+        Value::FunctionReference(f) => format!("fnref:{f}"),
+        Value::FormatSpecifiers(f) => format!("fmt:{f:?}"),
+        Value::StructInstance(info, fields) => format!(
+            "struct:{}{{{}}}",
+            info.name,
+            fields
+                .iter()
+                .map(describe_value)
+                .collect::<Vec<_>>()
+                .join(",")
+        ),
+        Value::List(l) => format!(
+            "list:[{}]",
+            l.iter().map(describe_value).collect::<Vec<_>>().join(",")
+        ),
+    }
+}
+
+impl Context {
+    /// Names, types and constant values of the session as text lines, sorted; floats only as bit patterns.
+    /// Nothing in here depends on the order in which definitions were made unless the session state does.
+    pub fn verif_c17_digest(&self) -> Vec<String> {
+        let mut lines: Vec<String> = vec![];
+
+        for m in &self.resolver.imported_modules {
+            lines.push(format!("module {m}"));
+        }
+
+        let mut vars: Vec<&str> = self
+            .prefix_transformer
+            .variable_names
+            .iter()
+            .map(|s| s.as_str())
+            .collect();
+        vars.sort();
+        vars.dedup();
+        for v in vars {
+            let ty = self
+                .typechecker
+                .lookup_identifier_type(v)
+                .map(|t| t.pretty_print().to_string())
+                .unwrap_or_else(|| "?".into());
+            let value = self
+                .interpreter
+                .verif_raw_global(v)
+                .map(|x| describe_value(&x))
+                .unwrap_or_else(|| "?".into());
+            lines.push(format!("var {v} : {ty} = {value}"));
+        }
+
+        let mut fns: Vec<&str> = self
+            .prefix_transformer
+            .function_names
+            .iter()
+            .map(|s| s.as_str())
+            .collect();
+        fns.sort();
+        fns.dedup();
+        for f in fns {
+            let ty = self
+                .typechecker
+                .lookup_function(f)
+                .map(|(sig, _)| {
+                    format!(
+                        "{} ({})",
+                        sig.fn_type.pretty_print(),
+                        sig.parameters
+                            .iter()
+                            .map(|(_, n, _)| n.as_str())
+                            .collect::<Vec<_>>()
+                            .join(",")
+                    )
+                })
+                .unwrap_or_else(|| "?".into());
+            lines.push(format!("fn {f} : {ty}"));
+        }
+
+        for names in &self.prefix_transformer.unit_names {
+            let mut names: Vec<&str> = names.iter().map(|s| s.as_str()).collect();
+            names.sort();
+            lines.push(format!("unit-names {}", names.join(",")));
+        }
+        for (name, (base_repr, md)) in self.unit_representations() {
+            let ty = self
+                .typechecker
+                .lookup_identifier_type(&name)
+                .map(|t| t.pretty_print().to_string())
+                .unwrap_or_else(|| "?".into());
+            let definition = match self.interpreter.get_defining_unit(&name) {
+                Some(unit) => match unit.iter().next() {
+                    Some(factor) => {
+                        let id = &factor.unit_id;
+                        let crate::unit::BaseUnitAndFactor(def_unit, conversion) =
+                            id.unit_and_factor();
+                        format!(
+                            "{} {:016x}[{}]",
+                            if id.is_base() { "base" } else { "derived" },
+                            conversion.to_f64().to_bits(),
+                            describe_unit(&def_unit)
+                        )
+                    }
+                    None => "?".into(),
+                },
+                None => "?".into(),
+            };
+            let mut aliases: Vec<String> = md
+                .aliases
+                .iter()
+                .map(|(a, ap)| format!("{a}/{}{}", ap.short as u8, ap.long as u8))
+                .collect();
+            aliases.sort();
+            lines.push(format!(
+                "unit {name} : {ty} ~ {base_repr} = {definition} canonical={}/{}{} metric={} binary={} abbrev={} aliases={}",
+                md.canonical_name.name,
+                md.canonical_name.accepts_prefix.short as u8,
+                md.canonical_name.accepts_prefix.long as u8,
+                md.metric_prefixes,
+                md.binary_prefixes,
+                md.is_abbreviation,
+                aliases.join(",")
+            ));
+        }
+
+        let mut dims: Vec<&str> = self
+            .prefix_transformer
+            .dimension_names
+            .iter()
+            .map(|s| s.as_str())
+            .collect();
+        dims.sort();
+        dims.dedup();
+        for d in dims {
+            let repr = self
+                .dimension_registry()
+                .get_base_representation_for_name(d)
+                .map(|r| r.to_string())
+                .unwrap_or_else(|_| "?".into());
+            lines.push(format!("dimension {d} = {repr}"));
+        }
+
+        lines.extend(self.typechecker.verif_c17_structs());
+
+        lines.sort();
+        lines
+    }
+}
